@@ -39,11 +39,11 @@ def classified : List (String × Bool) := [
   ("verit_disj_pts", false),
   ("verit_distinct_elim", false),
   ("verit_div_simplify", false),
-  ("verit_eq_congruent", false),
+  ("verit_eq_congruent", true),
   ("verit_eq_congruent_pred", false),
   ("verit_eq_reflexive", true),
   ("verit_eq_simplify", false),
-  ("verit_eq_transitive", false),
+  ("verit_eq_transitive", true),
   ("verit_equiv1", true),
   ("verit_equiv2", true),
   ("verit_equiv_neg1", true),
@@ -102,7 +102,7 @@ def classified : List (String × Bool) := [
   ("verit_subproof", false),
   ("verit_sum_simplify", false),
   ("verit_th_resolution", true),
-  ("verit_trans", false),
+  ("verit_trans", true),
   ("verit_unary_minus_simplify", false),
   ("verit_xor_neg1", true),
   ("verit_xor_neg2", true),
@@ -174,6 +174,26 @@ example : evalRule .andNeg [mkAnd (.var 0) (.var 1), mkNot (.var 0), mkNot (.var
       .ok ⟨[], mkOr (mkAnd (.var 0) (.var 1)) (mkOr (mkNot (.var 0)) (mkNot (.var 1)))⟩
     ∧ evalRule .andNeg [mkAnd (.var 0) (mkAnd (.var 1) (.var 2)), mkNot (.var 0), mkNot (.var 1)] [] [] = .error .verit :=
   ⟨rfl, rfl⟩
+
+/-- the equality rules eq_transitive, trans, eq_congruent: an accepted chain / congruence step is
+valid whenever `equals` is equality (premise equalities first-order, both sides of a congruence with
+the same number of arguments — `wellKinded`, true of well-typed steps) -/
+theorem eq_rules_sound (I : Interp) (cl : List Tm) (ps : List Seq) (s : Seq) :
+    (eqTransitive cl = .ok s → wellKinded .eqTransitive cl [] = true → s.holds I) ∧
+    (transRule cl ps = .ok s → wellKinded .transRule cl ps = true → (∀ p ∈ ps, p.holds I) → s.holds I) ∧
+    (eqCongruent cl = .ok s → wellKinded .eqCongruent cl [] = true → s.holds I) :=
+  ⟨eqTransitive_sound I cl s, transRule_sound I cl ps s, eqCongruent_sound I cl s⟩
+
+/-- non-vacuity: `~(x = y) | ~(y = z) | x = z` is accepted, `~(x = y) | ~(w = z) | x = z` is not;
+`~(x = y) | f x = f y` is accepted, `~(x = y) | f x = f z` is not -/
+example :
+    eqTransitive [mkNot (mkEq (.var 0) (.var 1)), mkNot (mkEq (.var 1) (.var 2)), mkEq (.var 0) (.var 2)] =
+      .ok ⟨[], mkOr (mkNot (mkEq (.var 0) (.var 1))) (mkOr (mkNot (mkEq (.var 1) (.var 2))) (mkEq (.var 0) (.var 2)))⟩
+    ∧ eqTransitive [mkNot (mkEq (.var 0) (.var 1)), mkNot (mkEq (.var 3) (.var 2)), mkEq (.var 0) (.var 2)] = .error .verit
+    ∧ eqCongruent [mkNot (mkEq (.var 0) (.var 1)), mkEq (.comb (.const 100) (.var 0)) (.comb (.const 100) (.var 1))] =
+      .ok ⟨[], mkOr (mkNot (mkEq (.var 0) (.var 1))) (mkEq (.comb (.const 100) (.var 0)) (.comb (.const 100) (.var 1)))⟩
+    ∧ eqCongruent [mkNot (mkEq (.var 0) (.var 1)), mkEq (.comb (.const 100) (.var 0)) (.comb (.const 100) (.var 2))] = .error .verit :=
+  ⟨rfl, rfl, rfl, rfl⟩
 
 /-! ### la_generic / la_tautology -/
 
